@@ -5,6 +5,7 @@ import CorsVerif.Spec.Fetch
 import CorsVerif.Proofs.Accepted
 import CorsVerif.Proofs.Accept
 import CorsVerif.Proofs.LexOrigins
+import CorsVerif.Proofs.NetFacts
 /-
   C01 — Allowed origins are exactly the union of what the configured patterns denote.
 
@@ -685,6 +686,14 @@ theorem C01_browser_ip (ext : Ext) (hext : ∀ h info, ext.ip6 h = some info →
   · intro lit h1 h2 h3
     rw [C01_request ext hext cfg icfg acc hns, C01_browser_parse_ipv6 scheme lit p hs h1 h2 h3 hp hany]
 
+/-- `C01_config` for the library answers as the driver uses them (`Net.std`: IDNA and public-suffix
+answers from the real libraries, IPv6 text from the model of `net/netip`): no hypothesis about an oracle is left. -/
+theorem C01_config_std (idna etld : Bytes → Bool) (cfg : Config) (icfg : ICfg)
+    (acc : newInternalConfig (Net.std idna etld) cfg = .ok icfg)
+    (hns : cfg.origins.contains Validate.star = false) (o : Origin) (ho : o.port ≤ 65535) :
+    Tree.contains icfg.tree o = (parsedPatterns (Net.std idna etld) cfg.origins).any (fun p => Spec.denotes p o) :=
+  C01_config (Net.std idna etld) (Net.hext_std idna etld) cfg icfg acc hns o ho
+
 example : Spec.docOctet (Spec.b "127") = true ∧ Spec.docOctet (Spec.b "0") = true ∧ Spec.docOctet (Spec.b "255") = true := by decide
 
 /-- Non-vacuity: hosts sharing a byte suffix that is not a label boundary (`foo.com`, `barfoo.com`)
@@ -709,5 +718,6 @@ example : [ex1, ex2, ex3].any (fun p => Spec.denotes p
 #print axioms C01_browser_parse_ipv4
 #print axioms C01_browser_parse_ipv6
 #print axioms C01_browser_ip
+#print axioms C01_config_std
 
 end Cors
